@@ -1,6 +1,7 @@
 """R-smf: a strict Standard MIDI File reader written from the SMF 1.0 specification (never imports mingus).
 
-Running status is rejected (the writer under test never emits it, so accepting it could mask a missing status byte).
+Running status (a channel message without its status byte repeats the status of the previous channel message; meta and
+system messages cancel it) is part of the format and is decoded: a writer may use it or not, the events denoted are the same.
 """
 import struct
 
@@ -71,6 +72,7 @@ def parse_track(b):
     t = 0
     ev = []
     ended = False
+    running = None
     while i < len(b):
         if ended:
             raise SMFError("data after end-of-track")
@@ -80,7 +82,13 @@ def parse_track(b):
             raise SMFError("delta time without event")
         st = b[i]
         i += 1
+        if st < 0x80:
+            if running is None:
+                raise SMFError("data byte %02x where a status byte is required (offset %d)" % (st, i - 1))
+            st = running  # running status: the byte just read is the first data byte
+            i -= 1
         if st == 0xFF:
+            running = None
             if i >= len(b):
                 raise SMFError("truncated meta event")
             ty = b[i]
@@ -95,8 +103,6 @@ def parse_track(b):
                 if ln != 0:
                     raise SMFError("end-of-track with data")
                 ended = True
-        elif st < 0x80:
-            raise SMFError("data byte %02x where a status byte is required (offset %d)" % (st, i - 1))
         elif st >= 0xF0:
             raise SMFError("system message %02x not expected" % st)
         else:
@@ -106,6 +112,7 @@ def parse_track(b):
             if len(ps) != n or any(p & 0x80 for p in ps):
                 raise SMFError("bad parameters for status %02x at %d" % (st, i))
             i += n
+            running = st
             ev.append((t, KINDS[k], st & 15) + tuple(ps))
     if not ended:
         raise SMFError("no end-of-track event")
